@@ -212,7 +212,7 @@ fn code_blob(which: u64) -> &'static [u8] {
     &blobs[(which as usize) % blobs.len()]
 }
 
-pub const INPUT_CLASSES: &[&str] = &["empty", "const", "periodic", "random", "mixed", "text", "code", "counter", "incomp_then_comp", "far_repeat", "zero", "lowent", "copies", "sandwich", "x86soup"];
+pub const INPUT_CLASSES: &[&str] = &["empty", "const", "periodic", "random", "mixed", "text", "code", "counter", "incomp_then_comp", "far_repeat", "zero", "lowent", "copies", "sandwich", "x86soup", "mutperiod"];
 
 impl InputSpec {
     pub fn new(class: &str, len: usize, seed: u64) -> Self {
@@ -237,6 +237,31 @@ impl InputSpec {
                 }
             }
             "random" => rng.fill(&mut out),
+            "mutperiod" => {
+                // a random block of p1 bytes repeated (every position has a match at distance
+                // p1, typically the dictionary size: the largest distance there is), with single
+                // bytes changed every p2 bytes on average, so that the matches are short and the
+                // encoder keeps comparing the match at p with the one at p + 1
+                let p = self.p1.max(1) as usize;
+                // p2 = gap + 1000 * alphabet size (0: all byte values). A small alphabet gives
+                // the changed byte a short match somewhere else, which is what makes the lazy
+                // matcher look at p + 1.
+                let alpha = (self.p2 / 1000).min(255);
+                let mut pat = vec![0u8; p.min(n.max(1))];
+                rng.fill(&mut pat);
+                if alpha >= 2 {
+                    pat.iter_mut().for_each(|b| *b = b'a' + (*b as u64 % alpha) as u8);
+                }
+                for (i, b) in out.iter_mut().enumerate() {
+                    *b = pat[i % pat.len()];
+                }
+                let gap = (self.p2 % 1000).max(2) as usize;
+                let mut i = rng.urange(0, gap);
+                while i < n {
+                    out[i] = if alpha >= 2 { b'a' + ((out[i] - b'a') as u64 + 1 + rng.below(alpha - 1)) as u8 % alpha as u8 } else { out[i].wrapping_add(1 + rng.below(255) as u8) };
+                    i += rng.urange(1, 2 * gap);
+                }
+            }
             "lowent" => {
                 // few symbols, random order: compressible but match-poor
                 let k = (self.p1.max(2)).min(16);
